@@ -113,6 +113,7 @@ pub fn c02(c: &mut Ctx, b: &Budget) {
                 8 => c.assign(&format!("compress {}", cur)),
                 _ => c.assign(&format!("compress_subject {}", cur)),
             };
+            c.no_panic(&next, "obscuring");
             if let Some(r) = c.env(&next) {
                 observe_env(c, &next, false);
                 let v = check_positions(&orig, &r);
